@@ -5,118 +5,156 @@
 -/
 import RotoV.Lemmas.LayoutEq
 namespace RotoV.Layout
-open RotoV RotoV.LayoutStd RotoV.Gen.LayoutGen
+open RotoV RotoV.LayoutStd RotoV.Gen.LayoutGen RotoV.Gen.LayoutDecide
+
+/-- `Pool::is_reference_type` (the generated function), by kind: a registered
+    type is a reference type whatever its size; any other type is one iff it
+    is inhabited, not zero-sized and of a by-reference kind -/
+theorem isReferenceType_eq (t : Ty) : isReferenceType t =
+    if t.kind = .runtime then some true
+    else match layoutOf t with
+      | none => none
+      | some l => if l.get_size = 0 then some false else is_reference_type_arms t.kind := by
+  unfold isReferenceType is_reference_type
+  cases hk : t.kind <;> cases hl : layoutOf t <;> simp [is_reference_type_matches0, is_reference_type_arms]
+  all_goals (split <;> simp_all)
+
+/-- `Lowerer::lower_type` (the generated function completed with the scalar's
+    size), by type: nothing for a zero-sized type that is not registered, the
+    scalar for integer-like and float leaves, a pointer for lists and
+    registered types (zero-sized ones too), otherwise what
+    `is_reference_type` says -/
+theorem lowerType_eq (t : Ty) : lowerType t =
+    if noIrValue t then .ok none
+    else match t with
+      | .leaf .int s _ => .ok (some (.int s))
+      | .leaf .float s _ => .ok (some (.float s))
+      | .leaf .list _ _ | .leaf .rtCopy _ _ | .leaf .rtClone _ _ => .ok (some .pointer)
+      | _ =>
+        match isReferenceType t with
+        | none => .ok none
+        | some true => .ok (some .pointer)
+        | some false => .panic := by
+  unfold lowerType lower_type noIrValue sizeZero
+  cases t with
+  | unit => simp [Ty.kind, lower_type_matches0, layoutOf, Layout.new, Layout.get_size]
+  | never => simp [Ty.kind, lower_type_matches0, lower_type_early, layoutOf, isReferenceType_eq]
+  | record fs =>
+    cases hl : layoutOf (.record fs) with
+    | none => simp [Ty.kind, lower_type_matches0, lower_type_early, isReferenceType_eq, hl]
+    | some l =>
+      by_cases hz : l.get_size = 0 <;>
+        simp [Ty.kind, lower_type_matches0, lower_type_early, isReferenceType_eq, hl, hz, is_reference_type_arms]
+  | enum vs =>
+    cases hl : layoutOf (.enum vs) with
+    | none => simp [Ty.kind, lower_type_matches0, lower_type_early, isReferenceType_eq, hl]
+    | some l =>
+      by_cases hz : l.get_size = 0 <;>
+        simp [Ty.kind, lower_type_matches0, lower_type_early, isReferenceType_eq, hl, hz, is_reference_type_arms]
+  | leaf k s a =>
+    by_cases hz : s = 0 <;> cases k <;>
+      simp [Ty.kind, lower_type_matches0, lower_type_early, isReferenceType_eq, layoutOf, Layout.new, Layout.get_size, hz,
+        is_reference_type_arms, scalarBytes]
 
 theorem isReferenceType_false_cases (t : Ty) (h : isReferenceType t = some false) :
-    sizeZero t = true ∨ t = .unit ∨ (∃ s a, t = .leaf .int s a) ∨ (∃ s a, t = .leaf .float s a) := by
-  unfold isReferenceType at h
-  cases hl : layoutOf t with
-  | none => simp [hl] at h
-  | some l =>
-    simp only [hl] at h
-    by_cases hz : l.get_size = 0
-    · left; simp [sizeZero, hl, hz]
-    · simp only [hz, if_false] at h
-      cases t with
-      | unit => exact Or.inr (Or.inl rfl)
-      | never => simp at h
-      | record fs => simp at h
-      | enum vs => simp at h
-      | leaf k s a =>
-        cases k <;> simp at h
-        · exact Or.inr (Or.inr (Or.inl ⟨s, a, rfl⟩))
-        · exact Or.inr (Or.inr (Or.inr ⟨s, a, rfl⟩))
+    noIrValue t = true ∨ t = .unit ∨ (∃ s a, t = .leaf .int s a) ∨ (∃ s a, t = .leaf .float s a) := by
+  rw [isReferenceType_eq] at h
+  by_cases hk : t.kind = .runtime
+  · simp [hk] at h
+  · simp only [hk, if_false] at h
+    cases hl : layoutOf t with
+    | none => simp [hl] at h
+    | some l =>
+      simp only [hl] at h
+      by_cases hz : l.get_size = 0
+      · left; simp [noIrValue, sizeZero, hl, hz, hk]
+      · simp only [hz, if_false] at h
+        cases t with
+        | unit => exact Or.inr (Or.inl rfl)
+        | never => simp [Ty.kind, is_reference_type_arms] at h
+        | record fs => simp [Ty.kind, is_reference_type_arms] at h
+        | enum vs => simp [Ty.kind, is_reference_type_arms] at h
+        | leaf k s a =>
+          cases k <;> simp [Ty.kind, is_reference_type_arms] at h
+          · exact Or.inr (Or.inr (Or.inl ⟨s, a, rfl⟩))
+          · exact Or.inr (Or.inr (Or.inr ⟨s, a, rfl⟩))
 
 /-- what `lower_type` answers, by cases — in particular never the final `ice!` -/
 theorem lowerType_cases (t : Ty) :
-    (sizeZero t = true ∧ lowerType t = .ok none) ∨
-    (sizeZero t = false ∧ ((∃ s a, t = .leaf .int s a ∧ lowerType t = .ok (some (.int s))) ∨
+    (noIrValue t = true ∧ lowerType t = .ok none) ∨
+    (noIrValue t = false ∧ ((∃ s a, t = .leaf .int s a ∧ lowerType t = .ok (some (.int s))) ∨
       (∃ s a, t = .leaf .float s a ∧ lowerType t = .ok (some (.float s))) ∨
       (isReferenceType t = some true ∧ lowerType t = .ok (some .pointer)) ∨
       (isReferenceType t = none ∧ lowerType t = .ok none))) := by
-  by_cases hs : sizeZero t = true
-  · left; exact ⟨hs, by simp [lowerType, hs]⟩
+  by_cases hs : noIrValue t = true
+  · left; exact ⟨hs, by simp [lowerType_eq, hs]⟩
   · right
-    have hs' : sizeZero t = false := by simpa using hs
+    have hs' : noIrValue t = false := by simpa using hs
     refine ⟨hs', ?_⟩
-    have href : isReferenceType t ≠ some false ∨ (∃ s a, t = .leaf .int s a) ∨ (∃ s a, t = .leaf .float s a) := by
-      by_cases hr : isReferenceType t = some false
-      · rcases isReferenceType_false_cases t hr with h | h | h | h
-        · simp [hs'] at h
-        · subst h; simp [sizeZero, layoutOf, Layout.new, Layout.get_size] at hs'
-        · exact Or.inr (Or.inl h)
-        · exact Or.inr (Or.inr h)
-      · exact Or.inl hr
-    have hgen : ∀ (hne : isReferenceType t ≠ some false),
-        (match isReferenceType t with
-          | none => (Res.ok none : Res (Option IrT))
+    -- outside the scalar leaves, `is_reference_type` never says `false` here
+    have hne : (∀ s a, t ≠ .leaf .int s a) → (∀ s a, t ≠ .leaf .float s a) → isReferenceType t ≠ some false := by
+      intro h1 h2 hr
+      rcases isReferenceType_false_cases t hr with h | h | ⟨s, a, h⟩ | ⟨s, a, h⟩
+      · rw [h] at hs'; cases hs'
+      · subst h; simp [noIrValue, sizeZero, Ty.kind, layoutOf, Layout.new, Layout.get_size] at hs'
+      · exact h1 s a h
+      · exact h2 s a h
+    have hgen : isReferenceType t ≠ some false →
+        ((match isReferenceType t with
+          | none => (.ok none : Res (Option IrT))
           | some true => .ok (some .pointer)
-          | some false => .panic) = .ok (some .pointer) ∧ isReferenceType t = some true ∨
-        (match isReferenceType t with
-          | none => (Res.ok none : Res (Option IrT))
+          | some false => .panic) = .ok (some .pointer) ∧ isReferenceType t = some true) ∨
+        ((match isReferenceType t with
+          | none => (.ok none : Res (Option IrT))
           | some true => .ok (some .pointer)
-          | some false => .panic) = .ok none ∧ isReferenceType t = none := by
+          | some false => .panic) = .ok none ∧ isReferenceType t = none) := by
       intro hne
       cases hr : isReferenceType t with
       | none => right; simp
       | some b => cases b with
         | true => left; simp
         | false => exact absurd hr hne
-    have hlr : ∀ k s a, t = .leaf k s a → (k = .list ∨ k = .rtCopy ∨ k = .rtClone) →
+    have hrt : ∀ k s a, t = .leaf k s a → (k = .list ∨ k = .rtCopy ∨ k = .rtClone) →
         isReferenceType t = some true := by
       intro k s a ht hk
       subst ht
-      have hsz : ¬ (Layout.new s a).get_size = 0 := by
-        simpa [sizeZero, layoutOf] using hs'
-      rcases hk with rfl | rfl | rfl <;> simp [isReferenceType, layoutOf, hsz]
+      rw [isReferenceType_eq]
+      rcases hk with rfl | rfl | rfl
+      · have : s ≠ 0 := by
+          intro h0; subst h0
+          simp [noIrValue, sizeZero, Ty.kind, layoutOf, Layout.new, Layout.get_size] at hs'
+        simp [Ty.kind, layoutOf, Layout.new, Layout.get_size, this, is_reference_type_arms]
+      · simp [Ty.kind]
+      · simp [Ty.kind]
     cases t with
     | leaf k s a =>
       cases k with
-      | int => left; exact ⟨s, a, rfl, by simp [lowerType, hs']⟩
-      | float => right; left; exact ⟨s, a, rfl, by simp [lowerType, hs']⟩
-      | list => right; right; left; exact ⟨hlr _ _ _ rfl (Or.inl rfl), by simp [lowerType, hs']⟩
-      | rtCopy => right; right; left; exact ⟨hlr _ _ _ rfl (Or.inr (Or.inl rfl)), by simp [lowerType, hs']⟩
-      | rtClone => right; right; left; exact ⟨hlr _ _ _ rfl (Or.inr (Or.inr rfl)), by simp [lowerType, hs']⟩
+      | int => left; exact ⟨s, a, rfl, by simp [lowerType_eq, hs']⟩
+      | float => right; left; exact ⟨s, a, rfl, by simp [lowerType_eq, hs']⟩
+      | list => right; right; left; exact ⟨hrt _ _ _ rfl (Or.inl rfl), by simp [lowerType_eq, hs']⟩
+      | rtCopy => right; right; left; exact ⟨hrt _ _ _ rfl (Or.inr (Or.inl rfl)), by simp [lowerType_eq, hs']⟩
+      | rtClone => right; right; left; exact ⟨hrt _ _ _ rfl (Or.inr (Or.inr rfl)), by simp [lowerType_eq, hs']⟩
       | string =>
-        have hne : isReferenceType (.leaf .string s a) ≠ some false := by
-          rcases href with h | ⟨_, _, h⟩ | ⟨_, _, h⟩
-          · exact h
-          · cases h
-          · cases h
-        rcases hgen hne with ⟨h1, h2⟩ | ⟨h1, h2⟩
-        · right; right; left; exact ⟨h2, by simp [lowerType, hs', h2]⟩
-        · right; right; right; exact ⟨h2, by simp [lowerType, hs', h2]⟩
+        rcases hgen (hne (by intro s a h; cases h) (by intro s a h; cases h)) with ⟨h1, h2⟩ | ⟨h1, h2⟩
+        · right; right; left; exact ⟨h2, by simp [lowerType_eq, hs', h2]⟩
+        · right; right; right; exact ⟨h2, by simp [lowerType_eq, hs', h2]⟩
       | copyRef =>
-        have hne : isReferenceType (.leaf .copyRef s a) ≠ some false := by
-          rcases href with h | ⟨_, _, h⟩ | ⟨_, _, h⟩
-          · exact h
-          · cases h
-          · cases h
-        rcases hgen hne with ⟨h1, h2⟩ | ⟨h1, h2⟩
-        · right; right; left; exact ⟨h2, by simp [lowerType, hs', h2]⟩
-        · right; right; right; exact ⟨h2, by simp [lowerType, hs', h2]⟩
-    | unit => simp [sizeZero, layoutOf, Layout.new, Layout.get_size] at hs'
+        rcases hgen (hne (by intro s a h; cases h) (by intro s a h; cases h)) with ⟨h1, h2⟩ | ⟨h1, h2⟩
+        · right; right; left; exact ⟨h2, by simp [lowerType_eq, hs', h2]⟩
+        · right; right; right; exact ⟨h2, by simp [lowerType_eq, hs', h2]⟩
+    | unit => simp [noIrValue, sizeZero, Ty.kind, layoutOf, Layout.new, Layout.get_size] at hs'
     | never =>
       right; right; right
-      exact ⟨by simp [isReferenceType, layoutOf], by simp [lowerType, hs', isReferenceType, layoutOf]⟩
+      have h2 : isReferenceType .never = none := by simp [isReferenceType_eq, Ty.kind, layoutOf]
+      exact ⟨h2, by simp [lowerType_eq, hs', h2]⟩
     | record fs =>
-      have hne : isReferenceType (.record fs) ≠ some false := by
-        rcases href with h | ⟨_, _, h⟩ | ⟨_, _, h⟩
-        · exact h
-        · cases h
-        · cases h
-      rcases hgen hne with ⟨h1, h2⟩ | ⟨h1, h2⟩
-      · right; right; left; exact ⟨h2, by simp [lowerType, hs', h2]⟩
-      · right; right; right; exact ⟨h2, by simp [lowerType, hs', h2]⟩
+      rcases hgen (hne (by intro s a h; cases h) (by intro s a h; cases h)) with ⟨h1, h2⟩ | ⟨h1, h2⟩
+      · right; right; left; exact ⟨h2, by simp [lowerType_eq, hs', h2]⟩
+      · right; right; right; exact ⟨h2, by simp [lowerType_eq, hs', h2]⟩
     | enum vs =>
-      have hne : isReferenceType (.enum vs) ≠ some false := by
-        rcases href with h | ⟨_, _, h⟩ | ⟨_, _, h⟩
-        · exact h
-        · cases h
-        · cases h
-      rcases hgen hne with ⟨h1, h2⟩ | ⟨h1, h2⟩
-      · right; right; left; exact ⟨h2, by simp [lowerType, hs', h2]⟩
-      · right; right; right; exact ⟨h2, by simp [lowerType, hs', h2]⟩
+      rcases hgen (hne (by intro s a h; cases h) (by intro s a h; cases h)) with ⟨h1, h2⟩ | ⟨h1, h2⟩
+      · right; right; left; exact ⟨h2, by simp [lowerType_eq, hs', h2]⟩
+      · right; right; right; exact ⟨h2, by simp [lowerType_eq, hs', h2]⟩
 
 theorem lowerType_total (t : Ty) : lowerType t ≠ .panic := by
   rcases lowerType_cases t with ⟨_, h⟩ | ⟨_, ⟨_, _, _, h⟩ | ⟨_, _, _, h⟩ | ⟨_, h⟩ | ⟨_, h⟩⟩ <;> simp [h]
